@@ -78,9 +78,18 @@ class Zone(dns.zone.Zone):  # lgtm[py/missing-equals]
         self._write_event: threading.Event | None = None
         self._write_waiters: collections.deque[threading.Event] = collections.deque()
         self._readers: set[Transaction] = set()
-        self._commit_version_unlocked(
-            None, WritableVersion(self, replacement=True), origin
-        )
+        # The initial (empty) version is published like every other version:
+        # built by the zone's writable version factory and frozen by its
+        # immutable version factory, so that readers of a new zone get an
+        # immutable snapshot too (and, for map types that share structure
+        # between versions, so that the first writer has an immutable original).
+        wfactory = self.writable_version_factory
+        if wfactory is None:
+            wfactory = WritableVersion
+        ifactory = self.immutable_version_factory
+        if ifactory is None:
+            ifactory = ImmutableVersion
+        self._commit_version_unlocked(None, ifactory(wfactory(self, True)), origin)
 
     def reader(
         self, id: int | None = None, serial: int | None = None
